@@ -374,7 +374,15 @@ func routeHolderCases(r *rng, st *stats) ([]routeCase, error) {
 		ds := entry.datasets[dsid]
 		var batch []*pb.BatchItem
 		var ids []uuid.UUID
+		// an item the entry node refuses (wrong dimension) sits in front of the good ones and another in their middle:
+		// the good items are routed by their own ids all the same
+		refused := map[uuid.UUID]bool{}
 		for k := 0; k < 6+2*p; k++ {
+			if k == 0 || k == 4 {
+				bad := uuidFrom(r)
+				refused[bad] = true
+				batch = append(batch, &pb.BatchItem{Id: bad.Bytes(), Value: []float32{1}})
+			}
 			id := uuidFrom(r)
 			ids = append(ids, id)
 			batch = append(batch, &pb.BatchItem{Id: id.Bytes(), Value: []float32{float32(k), 2}})
@@ -393,6 +401,14 @@ func routeHolderCases(r *rng, st *stats) ([]routeCase, error) {
 			}
 			cancel()
 			st.count("holder-multi:" + path)
+			// the refused items are reported (insert / update check the vector; a removal carries none), nothing else is
+			for bad := range refused {
+				if path != "BatchRemove" && errs[bad] == nil && err == nil {
+					errs = map[uuid.UUID]error{bad: fmt.Errorf("the wrong-dimension item %s was not refused", bad)}
+					break
+				}
+				delete(errs, bad)
+			}
 			if err != nil || len(errs) > 0 {
 				st.ImplFailures = append(st.ImplFailures, implFailure{Case: -1, What: fmt.Sprintf("%s of %d fresh ids spanning %d partitions through node %d: err=%v, %d item errors %v", path, len(ids), p, entry.id, err, len(errs), errs),
 					Key: "route-path-disagrees:" + path + ":multi", Input: map[string]interface{}{"path": path, "partitions": p, "items": len(ids)}})
